@@ -158,7 +158,7 @@ class RefExec:
         self.stream = stream
         self.faults = faults or {}  # path -> kind
         self.k = dict(null_pct=12, max_list=3, budget=160, decoy_pct=60, type_as_object_pct=0, long_list_pct=0, mid_list_pct=0,
-                      skip_null_excludes=False)
+                      skip_null_excludes=False, reuse_results=None)
         if knobs:
             self.k.update(knobs)
         self.frags = doc.fragments()
@@ -355,7 +355,12 @@ class RefExec:
             ff.token = tok
             ff.tf = tf
             raise ff
-        raw = self.gen_raw(fd.type, path, obj_type, fd, top=True)
+        reuse = self.k.get("reuse_results")
+        if reuse is not None and path in reuse and reuse[path][0] == "value":
+            # an alternative plan over the SAME resolver data (objects included) as another plan
+            raw = reuse[path][1]
+        else:
+            raw = self.gen_raw(fd.type, path, obj_type, fd, top=True)
         p.results[path] = ("value", raw)
         return raw
 
